@@ -235,7 +235,8 @@ def coq_prove(ctx, prop_v=None, timeout=3000):
     t = time.time()
     os.makedirs(CACHE, exist_ok=True)
     # the lock serialises Coq builds of concurrently running checks (they share coq/*.vo)
-    rc, out = sh("flock %s sh -c 'rm -f %s; make -j16 %s'" % (os.path.join(CACHE, "coq.lock"), vo, vo), cwd=COQ, timeout=timeout)
+    rc, out = sh("ulimit -v 24000000; flock -w 1800 %s sh -c 'rm -f %s; timeout -k 5 %d make -j16 %s'" % (
+        os.path.join(CACHE, "coq.lock"), vo, min(timeout, 1500), vo), cwd=COQ, timeout=timeout + 1900)
     ctx.notes["coq_build_s"] = round(time.time() - t, 1)
     checker = "cd coq && coq_makefile -f _CoqProject -o Makefile && make -j16 %s  (coqc 8.16.1, full .vo build)" % vo
     ctx.cov["checker_cmd"] = checker
@@ -289,7 +290,8 @@ def coq_build(ctx, targets, timeout=3000):
     """Build model .vo files (proof-free files keep building when a proof file breaks)."""
     coq_makefile()
     os.makedirs(CACHE, exist_ok=True)
-    rc, out = sh("flock %s make -k -j16 %s" % (os.path.join(CACHE, "coq.lock"), " ".join(targets)), cwd=COQ, timeout=timeout)
+    rc, out = sh("ulimit -v 24000000; flock -w 1800 %s timeout -k 5 %d make -k -j16 %s" % (
+        os.path.join(CACHE, "coq.lock"), min(timeout, 1500), " ".join(targets)), cwd=COQ, timeout=timeout + 1900)
     return rc == 0, out[-3000:]
 
 
@@ -304,7 +306,7 @@ def extract_build(ctx, extract_v, driver_ml, name, timeout=1800):
     bad = re.findall(r"Extract\s+(Constant|Inductive|Inlined)|ExtrOcaml(?!Basic)\w+", src)
     extra = [b for b in bad if b]
     ctx.notes.setdefault("extraction_directives", []).append({extract_v: extra or "ExtrOcamlBasic only"})
-    rc, out = sh("flock %s sh -c 'make -k -j16 %s && cd %s && coqc -noglob -Q %s CB -w none %s'" % (
+    rc, out = sh("ulimit -v 24000000; flock -w 1800 %s timeout -k 5 1500 sh -c 'make -k -j16 %s && cd %s && coqc -noglob -Q %s CB -w none %s'" % (
         os.path.join(CACHE, "coq.lock"),
         " ".join(f[:-2] + ".vo" for f in coq_closure("Run/" + extract_v) if f != "Run/" + extract_v),
         d, COQ, os.path.join(COQ, "Run", extract_v)), cwd=COQ, timeout=timeout)
